@@ -6,7 +6,7 @@ _CK = ("SegmentAck", "SimpleAck", "ComplexAck", "Error", "Reject", "Abort")
 CLIENT_CONF = [P + "ClientSSM.confirmation[%s, %s]" % (s, k) for s in _CS for k in _CK]
 CLIENT_TASK = [P + "ClientSSM.process_task[%s]" % s for s in _CS + ("COMPLETED", "ABORTED")]
 CLIENT_START = [P + "ClientSSM.indication[local %s]" % s for s in SEG]
-SERVER_START = [P + "ServerSSM.indication[IDLE, ConfirmedRequest, local %s]" % s for s in SEG]
+SERVER_START = [P + "ServerSSM.indication[IDLE, ConfirmedRequest, local %s%s]" % (s, c) for s in SEG for c in ("", ", reserved max-APDU code")]
 SERVER_IN = [P + "ServerSSM.indication[%s, %s]" % sk for sk in (("SEGMENTED_REQUEST", "ConfirmedRequest"), ("SEGMENTED_REQUEST", "Abort"),
              ("SEGMENTED_REQUEST", "SegmentAck"), ("AWAIT_RESPONSE", "ConfirmedRequest"), ("AWAIT_RESPONSE", "Abort"),
              ("SEGMENTED_RESPONSE", "SegmentAck"), ("SEGMENTED_RESPONSE", "Abort"))]
@@ -25,6 +25,6 @@ SSM_ASSUMPTIONS = [
     "everything leaving a transaction is a ghost-traced external: Client.request (to the network), ServiceAccessPoint.sap_request / sap_response (to the application), DeviceInfoCache.acquire / release / update_device_info",
     "segment sizes are drawn from {50, 480} in mid-transfer states and computed from max-APDU values in {50, 128.., 480, 1024, 1476, 1497} at the start (a symbolic size makes count * size non-linear); payload, counts, indexes, sequence numbers, invoke IDs, retry counts and timeouts are symbolic and unbounded where the type allows",
     "fill_window is unrolled over the actual window size: windows up to SSM_WINDOW (2 in the quick tier, 4 in the thorough tier); larger windows are not covered by the sender-side obligations",
-    "honest peer: a segment ack names a segment this side has sent (the last one only after it was sent) or an older one, window sizes in acks and requests are 1..127, the first PDU of a segmented request carries sequence number 0, max-APDU codes are 0..5",
+    "honest peer: a segment ack names a segment this side has sent (the last one only after it was sent) or an older one, window sizes in acks and requests are 1..127, the first PDU of a segmented request carries sequence number 0",
     "whole-history claims (any loss / duplication / delay / reordering) = induction over the per-call contracts: the class invariant is established at the start and preserved by every entry point for every PDU and every timeout, so it holds after every sequence of them; the composition itself is the standard invariant argument and is not machine-checked as a whole",
 ]
